@@ -750,6 +750,77 @@ def r6_answers(ctx, fam):
         raise AnalysisError('C12.R6 found only %d answer sites' % n)
 
 
+LIMIT_KW = ('max_str_len', 'max_bin_len', 'max_array_len', 'max_map_len',
+            'max_ext_len', 'max_buffer_size')
+
+
+def r11_msgpack_limits(ctx):
+    """msgpack's decoder refuses a container / string header that declares
+    more elements than the frame has bytes - that default (limit = length of
+    the input) is what keeps a 5-byte header from reserving a million slots.
+    A limit keyword that is not derived from the length of the frame replaces
+    it: with a constant N every nested header may reserve up to N slots
+    whatever the size of the frame.  Rule: the decoder's calls into msgpack
+    pass no max_* limit, or one computed from len(<the frame>)."""
+    m = ctx.model
+    f = m.own_method('MsgPackPacket', 'decode')
+    construct = 'MsgPackPacket.decode'
+    frame = f.params[1]
+    n = 0
+    for c in ast.walk(f.module.tree):
+        if not isinstance(c, ast.Call):
+            continue
+        name = U(c.func)
+        if not (name.startswith('msgpack.') and name.split('.')[-1] in (
+                'loads', 'unpackb', 'Unpacker')):
+            continue
+        n += 1
+        kws = []
+        opaque = False
+        for k in c.keywords:
+            if k.arg is not None:
+                kws.append(k)
+                continue
+            # **name of a module-level dict display is read through
+            d = f.module.globals.get(k.value.id) if isinstance(
+                k.value, ast.Name) else None
+            if isinstance(d, ast.Dict) and all(
+                    isinstance(x, ast.Constant) and isinstance(x.value, str)
+                    for x in d.keys):
+                for kk, vv in zip(d.keys, d.values):
+                    if isinstance(vv, ast.Name) and \
+                            vv.id in f.module.globals:
+                        vv = f.module.globals[vv.id]
+                    kws.append(ast.keyword(arg=kk.value, value=vv))
+            else:
+                opaque = True
+        if opaque:
+            ctx.bad(construct, 'msgpack-limit **kwargs', 'the decoder call '
+                    '%s receives **kwargs: its allocation limits cannot be '
+                    'read off the source' % name, where(f, c))
+            continue
+        for k in kws:
+            if k.arg not in LIMIT_KW:
+                continue
+            tied = any(isinstance(x, ast.Call) and U(x.func) == 'len' and
+                       x.args and U(x.args[0]) == frame
+                       for x in ast.walk(k.value))
+            ctx.check(tied, construct, 'limit %s is tied to the length of '
+                      'the frame' % k.arg, key='msgpack-limit ' + k.arg,
+                      reason='%s=%s replaces msgpack\'s default limit (the '
+                      'length of the frame): a header declaring up to that '
+                      'many elements is accepted and its container reserved '
+                      'before any element has arrived, so a frame of a few '
+                      'bytes makes the server reserve memory in proportion '
+                      'to the number declared' % (k.arg, U(k.value)),
+                      where=where(f, c))
+        ctx.ok(construct, 'decoder call %s keeps the frame-length limits'
+               % name, where(f, c))
+    if not n:
+        ctx.info('C12.R11: no msgpack.loads / unpackb / Unpacker call in '
+                 'msgpack_packet.py')
+
+
 def run(ctx):
     ctx.rule('C12.R1', 'wire-declared numbers (attachment count, id) never '
              'reach range(), sequence repetition or a sized constructor '
@@ -780,6 +851,9 @@ def run(ctx):
              'must be refused) (shared rule)', floor=5)
     from .c04 import r6_manager
     r6_manager(ctx)
+    ctx.rule('C12.R11', 'the msgpack decoder keeps the allocation limits '
+             'tied to the length of the frame', floor=1)
+    r11_msgpack_limits(ctx)
     ctx.rule('C12.R10', 'regular expressions in the codec have no nested '
              'unbounded repetition (controls built in)', floor=1)
     r10_regex_linear(ctx)
